@@ -2056,6 +2056,7 @@ func (ls *LState) Resume(th *LState, fn *LFunction, args ...LValue) (ResumeState
 			for _, arg := range args {
 				th.Push(arg)
 			}
+			th.coverPendingResults()
 		}
 	})
 	haserror := LVIsFalse(ls.Get(top + 1))
@@ -2075,6 +2076,17 @@ func (ls *LState) Resume(th *LState, fn *LFunction, args ...LValue) (ResumeState
 	}
 	// also when the call stack is empty: the body yielded in tail position
 	return ResumeYield, nil, ret
+}
+
+// coverPendingResults keeps the registers that the pending yield's call
+// assigns (local a, b, c = coroutine.yield()) below the register top when the
+// resume supplied fewer values: a call made from Go (a metamethod, an iterator)
+// builds its frame at the top and would run over them.
+func (ls *LState) coverPendingResults() {
+	if ls.resumeTop > ls.reg.Top() {
+		ls.reg.SetTop(ls.resumeTop)
+	}
+	ls.resumeTop = 0
 }
 
 func (ls *LState) Yield(values ...LValue) int {
